@@ -5,7 +5,7 @@ from .. import env, coq, runner, gates, opsem
 
 LEVEL = 'translation_validation'
 META = dict(
-    text='Coq theorems (19, axiom-free): the MappingManager model (two arrays, apply_swap) keeps phys_to_log o log_to_phys = id for every swap sequence and a swap applied twice restores the mapping; the routing certificate checker route_ok is sound: an accepted routed list is exactly the emission, under mapped_op/apply_swap, of a logical stream that is trace-equivalent to the input, every two-qubit operation lies on a graph edge, the tracked mapping equals the reported swap map, and (route_ok_sem, over every ring with the laws, any number of qubits, any matrices) the routed circuit read through the final mapping computes the original circuit on the initial state read through the initial mapping; the CNOT.(HxH).CNOT.(HxH).CNOT block emitted on one-way edges equals SWAP exactly; Gateset.__contains__ (dictionary fast paths + scans) decides "some family accepts", type families follow isinstance along the mro, tag lists behave as documented, CircuitOperations are accepted iff unrolled and all inner operations are; device_accepts <-> in gateset /\\ qubits on device /\\ allowed pairs. On every run (translation validation of real outputs): optimize_for_target_gateset for 18 configurations of the CZ, sqrt-iSWAP, Sycamore, Google CZ, IonQ API/native, AQT and Pasqal targets on generated circuits: every output operation is accepted (gateset.validate, recomputed by the membership model inside Coq), input and output unitaries agree up to global phase (evaluated in Coq from each operation\'s own matrix), the input is unmodified; RouteCQC outputs over random connected (di)graphs and initial mappers pass route_ok (exact, vm_compute) and independently satisfy U_routed ~ P(swap_map) . U_ref; the real MappingManager arrays equal the model after random swap sequences; Gateset/GateFamily membership answers equal the model on ~16000 item x gateset pairs; GridDevice / AQT / Pasqal / IonQ validate_operation accepts exactly when the statement (and the device model) says so.',
+    text='Coq theorems (19, axiom-free): the MappingManager model (two arrays, apply_swap) keeps phys_to_log o log_to_phys = id for every swap sequence and a swap applied twice restores the mapping; the routing certificate checker route_ok is sound: an accepted routed list is exactly the emission, under mapped_op/apply_swap, of a logical stream that is trace-equivalent to the input, every two-qubit operation lies on a graph edge, the tracked mapping equals the reported swap map, and (route_ok_sem, over every ring with the laws, any number of qubits, any matrices) the routed circuit read through the final mapping computes the original circuit on the initial state read through the initial mapping; the CNOT.(HxH).CNOT.(HxH).CNOT block emitted on one-way edges equals SWAP exactly; Gateset.__contains__ (dictionary fast paths + scans) decides "some family accepts", type families follow isinstance along the mro, tag lists behave as documented, CircuitOperations are accepted iff unrolled and all inner operations are; device_accepts <-> in gateset /\\ qubits on device /\\ allowed pairs. On every run (translation validation of real outputs): optimize_for_target_gateset for 18 configurations of the CZ, sqrt-iSWAP, Sycamore, Google CZ, IonQ API/native, AQT and Pasqal targets on generated circuits: every output operation is accepted (gateset.validate, recomputed by the membership model inside Coq), input and output unitaries agree up to global phase (evaluated in Coq from each operation\'s own matrix), the input is unmodified; RouteCQC outputs over random connected (di)graphs and initial mappers pass route_ok (exact, vm_compute) and independently satisfy U_routed ~ P(swap_map) . U_ref; the real MappingManager arrays equal the model after random swap sequences; Gateset/GateFamily membership answers equal the model on ~16000 item x gateset pairs; GridDevice / AQT / Pasqal / IonQ validate_operation accepts exactly when the statement (and the device model) says so, and GridDevice (built from metadata and from DeviceSpecification protos) / IonQ validate_circuit accepts exactly the circuits all of whose operations are acceptable one by one (ordered pairs of tag / qubit variants of one gate); every library gate standing alone on its qubits, at every special exponent, is compiled for every target and compared in Coq.',
     note='Trusted: Coq kernel; float instance (tolerance 2^-20 ~ 1e-6) for unitaries; the Python adapters that describe an operation abstractly (type ids along the mro, == class, the instance gates it equals up to global phase as re-derived with numpy, tags, qubit integers) and that identify operations up to their qubits; numpy oracles used only to classify a disagreement. The compilers themselves (KAK, merging, swap selection) are not modelled: their outputs are validated per generated program, so the quantifier over programs is sampled. route_ok_sem covers certificates without directed-graph pieces; for directed graphs the collapse of the tagged CNOT/H block into a SWAP rests on the exact identity directed_swap_block plus commutation with operations on other qubits (argued, not proved) and the A.6 relation is compared numerically. The choice between old and new decomposition by two-qubit count does not affect the property and is only recorded as a supporting observation.',
     technique='Rocq/Coq proofs about the mapping manager, certificate checker, membership and device models + per-program translation validation by vm_compute on real compiler and router outputs',
 )
@@ -319,6 +319,108 @@ def compile_stream(ctx, mods, checks, per_target):
             sh = gates.nlist([2] * nq)
             checks.append((stream, f'fcll_close_phase {TOL} (circ_unitary FOps {sh} {rhs}) (circ_unitary FOps {sh} {lhs})',
                            f'optimize_for_target_gateset({tname}) changed the unitary of a {kind} circuit', dict(signature=f'compile:{tname}:{kind}:unitary', **rec)))
+
+
+# ---- a single library gate standing alone on its qubits (nothing to merge with: the bare gate reaches the target's own dispatch)
+LONE_CORE_EXP = [1.0, -1.0, 0.5, -0.5]
+LONE_POW1 = ['XPowGate', 'YPowGate', 'ZPowGate', 'HPowGate']
+LONE_POW2 = ['CZPowGate', 'CXPowGate', 'CYPowGate', 'SwapPowGate', 'ISwapPowGate', 'XXPowGate', 'YYPowGate', 'ZZPowGate']
+LONE_POW3 = ['CCZPowGate', 'CCXPowGate']
+LONE_FSIM = [(math.pi / 2, 0.0), (-math.pi / 2, 0.0), (math.pi / 4, 0.0), (-math.pi / 4, 0.0), (0.0, math.pi), (0.0, -math.pi), (math.pi / 2, math.pi / 6),
+             (math.pi / 2, math.pi), (0.0, math.pi / 2), (math.pi, 0.0), (0.0, 0.0)]
+
+
+def lone_gate_grid(mods, rng):
+    """(gate, core) pairs: every power-gate family of the library at every special exponent (canonical form, zero shift), the
+    named two-qubit interactions at their special angles, three-qubit gates.  core = compiled for every target on every run;
+    the others are compiled for every target in the thorough tier and for a few drawn targets in the quick tier."""
+    cirq, cg = mods['cirq'], mods['cirq_google']
+    out = []
+    rest_exp = [e for e in gates.SPECIAL_EXP if e not in LONE_CORE_EXP]
+    for name in LONE_POW1 + LONE_POW2 + LONE_POW3:
+        cls = getattr(cirq, name)
+        out += [(cls(exponent=e), True) for e in LONE_CORE_EXP]
+        out += [(cls(exponent=e), False) for e in rest_exp + [round(rng.uniform(-4, 4), 3)]]
+        if name in LONE_POW2:
+            out += [(cls(exponent=e, global_shift=rng.choice([-0.5, 0.25, 0.5, 1.0])), False) for e in LONE_CORE_EXP]
+    for p in (0.0, 0.25, -0.25, 0.5, 1.0):
+        for e in LONE_CORE_EXP + [2.0, 3.0, 0.0]:
+            out.append((cirq.PhasedISwapPowGate(phase_exponent=p, exponent=e), p in (0.0, 0.25) and e in LONE_CORE_EXP))
+    out += [(cirq.FSimGate(theta=t, phi=p), i < 7) for i, (t, p) in enumerate(LONE_FSIM)]
+    out += [(cirq.FSimGate(theta=gates.draw_angle(rng), phi=gates.draw_angle(rng)), False) for _ in range(3)]
+    out += [(cirq.PhasedFSimGate(theta=t, zeta=gates.draw_angle(rng), chi=gates.draw_angle(rng), gamma=gates.draw_angle(rng), phi=p), False) for t, p in LONE_FSIM[:7]]
+    out += [(cirq.givens(a), a in (math.pi / 2, -math.pi / 2, math.pi / 4)) for a in (math.pi / 2, -math.pi / 2, math.pi / 4, -math.pi / 4, math.pi, 0.4)]
+    out += [(cirq.ms(a), a in (math.pi / 4, -math.pi / 4, math.pi / 2)) for a in (math.pi / 4, -math.pi / 4, math.pi / 2, -math.pi / 2, math.pi, 0.3)]
+    out += [(cg.SYC, True), (cirq.CSWAP, True), (cirq.QubitPermutationGate([1, 0]), False), (cirq.QubitPermutationGate([2, 0, 1]), False),
+            (cirq.TwoQubitDiagonalGate([0.0, math.pi, 0.0, 0.0]), False), (cirq.TwoQubitDiagonalGate([gates.draw_angle(rng) for _ in range(4)]), False)]
+    for pa, pb in itertools.product([cirq.X, cirq.Y, cirq.Z], repeat=2):
+        out += [(cirq.PauliInteractionGate(pa, rng.random() < 0.5, pb, rng.random() < 0.5, exponent=e), False) for e in (1.0, -1.0)]
+    for sub in (cirq.Z, cirq.X, cirq.Y, cirq.H, cirq.S, cirq.S ** -1, cirq.X ** 0.5, cirq.X ** -0.5, cirq.Z ** -1, cirq.X ** -1, cirq.CZ, cirq.CZ ** -1, cirq.ISWAP):
+        out.append((cirq.ControlledGate(sub), False))
+    return out
+
+
+def lone_circuit(mods, rng, tname, gate):
+    """The gate alone on its qubits: in either qubit order, beside a spectator qubit that carries something else, or next to a
+    no-compile tagged native operation (which the compiler must leave where it is).  Returns (circuit, qubits, tagged, placement)."""
+    cirq = mods['cirq']
+    k = cirq.num_qubits(gate)
+    placement = rng.choice(['forward', 'reversed', 'spectator', 'no_compile_neighbour'])
+    nq = k + 1 if placement == 'spectator' and k < 3 else k
+    qs = cirq.LineQubit.range(nq)
+    own = qs[nq - k:]
+    if placement != 'forward':
+        own = own[::-1] if k < 3 else rng.sample(own, k)
+    ops, tagged = [], False
+    if placement == 'spectator' and k < 3:
+        ops.append((cirq.X ** 0.3).on(qs[0]))
+    if placement == 'no_compile_neighbour':
+        for _ in range(40):
+            g1 = native_gate(mods, tname, rng)
+            if cirq.num_qubits(g1) == 1:
+                ops.append(g1.on(rng.choice(own)).with_tags(NC_TAG))
+                tagged = True
+                break
+    ops.insert(rng.randrange(len(ops) + 1) if tagged else len(ops), gate.on(*own))
+    return cirq.Circuit(ops), qs, tagged, placement
+
+
+def lone_gate_stream(ctx, mods, checks, full):
+    cirq = mods['cirq']
+    rng = ctx.rng
+    grid = lone_gate_grid(mods, rng)
+    for gate, core in grid:
+        targets = TARGETS if core else rng.sample(TARGETS, 6 if full else 2)
+        for tname in targets:
+            for rep in range(2 if full and core else 1):
+                circuit, qs, tagged, placement = lone_circuit(mods, rng, tname, gate)
+                rec = case_record(cirq, tname, 'lone', circuit, tagged, False, 1)
+                before_json = rec['circuit_json']
+                stream = f'compile:{tname}:lone'
+                try:
+                    gs, out = compile_case(mods, tname, circuit, tagged, False, 1)
+                except Exception as e:
+                    ctx.count(stream, [tname, before_json], True)
+                    report_compile(ctx, mods, rec, f'optimize_for_target_gateset({tname}) raised {type(e).__name__}: {str(e)[:200]} on the lone gate {gate!r}')
+                    continue
+                ctx.count(stream, [tname, before_json], True,
+                          sample=dict(target=tname, gate=repr(gate)[:80], placement=placement, output_ops=sum(1 for _ in out.all_operations())) if rng.random() < 0.01 else None)
+                if cirq.to_json(circuit) != before_json:
+                    report_compile(ctx, mods, rec, f'optimize_for_target_gateset({tname}) modified its input circuit')
+                bad = [op for op in out.all_operations() if not gs.validate(op)]
+                if bad or not gs.validate(out):
+                    report_compile(ctx, mods, rec, f'optimize_for_target_gateset({tname}) left {len(bad)} operation(s) the target does not accept for the lone gate {gate!r}, e.g. {str(bad[:2])[:200]}')
+                if not set(out.all_qubits()) <= set(qs):
+                    ctx.violation(f'compile:extra-qubits:{type(gate).__name__}', f'optimize_for_target_gateset({tname}) output for the lone gate {gate!r} acts on qubits outside the input', rec)
+                    continue
+                try:
+                    lhs, rhs = gop_list(cirq, circuit, qs), gop_list(cirq, out, qs)
+                except Exception as e:
+                    ctx.violation(f'compile:{tname}:lone:non-unitary-output', f'an output operation of optimize_for_target_gateset({tname}) has no unitary: {type(e).__name__}: {str(e)[:200]}', rec)
+                    continue
+                sh = gates.nlist([2] * len(qs))
+                checks.append((stream, f'fcll_close_phase {TOL} (circ_unitary FOps {sh} {rhs}) (circ_unitary FOps {sh} {lhs})',
+                               f'optimize_for_target_gateset({tname}) changed the unitary of the lone gate {gate!r} ({placement})', dict(signature=f'compile:{tname}:lone:unitary', **rec)))
 
 
 def compile_holds(mods, rec, circuit):
@@ -960,26 +1062,137 @@ class QubitTable:
         return self.qs.index(q)
 
 
+def device_gate_candidates(mods, rng):
+    cirq, cg = mods['cirq'], mods['cirq_google']
+    e = lambda: gates.draw_exp(rng)
+    return [cirq.X, cirq.X ** 0.5, cirq.Z ** e(), cirq.H, cirq.CZ, cirq.CZ, cirq.CZ ** 0.5, cirq.CZ ** 2, cirq.CNOT, cirq.SWAP, cirq.ISWAP, cirq.SQRT_ISWAP,
+            cirq.XX ** e(), cirq.ZZ ** e(), cirq.PhasedXPowGate(phase_exponent=e(), exponent=e()), cirq.PhasedXZGate(x_exponent=e(), z_exponent=e(), axis_phase_exponent=e()),
+            cirq.CCZ, cirq.CCX, cirq.MeasurementGate(1, 'a'), cirq.MeasurementGate(2, 'b'), cirq.MeasurementGate(3, 'c'), cirq.I, cirq.MatrixGate(gates.random_unitary(rng, 2)),
+            cirq.MatrixGate(gates.random_unitary(rng, 4)), cirq.ParallelGate(cirq.H, 2), cirq.WaitGate(cirq.Duration(nanos=5), num_qubits=2), cirq.WaitGate(cirq.Duration(nanos=5)),
+            cirq.Y ** e(), cirq.CZ ** 3, cirq.CNOT ** 2, cirq.FSimGate(theta=round(rng.uniform(-3, 3), 3), phi=round(rng.uniform(-3, 3), 3)), cg.SYC, cirq.SQRT_ISWAP_INV,
+            cirq.ResetChannel(), cirq.Z ** 0.5, cirq.S]
+
+
 def device_op_pool(mods, rng, qubits):
     """Operations on random qubits of `qubits` (a list that also contains qubits outside the device)."""
     cirq, cg = mods['cirq'], mods['cirq_google']
-    e = lambda: gates.draw_exp(rng)
-    gs = [cirq.X, cirq.X ** 0.5, cirq.Z ** e(), cirq.H, cirq.CZ, cirq.CZ, cirq.CZ ** 0.5, cirq.CZ ** 2, cirq.CNOT, cirq.SWAP, cirq.ISWAP, cirq.SQRT_ISWAP,
-          cirq.XX ** e(), cirq.ZZ ** e(), cirq.PhasedXPowGate(phase_exponent=e(), exponent=e()), cirq.PhasedXZGate(x_exponent=e(), z_exponent=e(), axis_phase_exponent=e()),
-          cirq.CCZ, cirq.CCX, cirq.MeasurementGate(1, 'a'), cirq.MeasurementGate(2, 'b'), cirq.MeasurementGate(3, 'c'), cirq.I, cirq.MatrixGate(gates.random_unitary(rng, 2)),
-          cirq.MatrixGate(gates.random_unitary(rng, 4)), cirq.ParallelGate(cirq.H, 2), cirq.WaitGate(cirq.Duration(nanos=5), num_qubits=2), cirq.WaitGate(cirq.Duration(nanos=5)),
-          cirq.Y ** e(), cirq.CZ ** 3, cirq.CNOT ** 2]
+    gs = device_gate_candidates(mods, rng)
     g = rng.choice(gs)
     n = cirq.num_qubits(g)
     op = g.on(*rng.sample(qubits, n))
     r = rng.random()
     if r < 0.12:
-        op = op.with_tags(rng.choice(['t', cg.PhysicalZTag(), NC_TAG]))
+        op = op.with_tags(rng.choice(['t', cg.PhysicalZTag(), NC_TAG, cg.FSimViaModelTag()]))
     elif r < 0.17 and n <= 2:
         op = cirq.CircuitOperation(cirq.FrozenCircuit(op))
     elif r < 0.2 and not cirq.is_measurement(op):
         op = op.with_classical_controls('a')
     return op
+
+
+def fixed_grid_gatesets(mods):
+    """Gatesets present on every run: tag-dependent families with and without the complementary family, so that the same gate is
+    acceptable with some tags and not with others."""
+    cirq, cg = mods['cirq'], mods['cirq_google']
+    GF = cirq.GateFamily
+    pz, via, two = cg.PhysicalZTag(), cg.FSimViaModelTag(), cg.TwoPulseFSimTag()
+    return [
+        cirq.Gateset(cirq.CZ, cirq.PhasedXZGate, cirq.XPowGate, GF(cirq.ZPowGate, tags_to_accept=[pz]), cirq.MeasurementGate),
+        cirq.Gateset(cirq.CZPowGate, cirq.PhasedXZGate, GF(cirq.ZPowGate, tags_to_ignore=[pz]), cirq.MeasurementGate, cirq.WaitGate),
+        cirq.Gateset(GF(cirq.CZPowGate, tags_to_accept=['t']), GF(cirq.XPowGate, tags_to_ignore=['t']), GF(cirq.ZPowGate, tags_to_accept=[pz]),
+                     GF(cirq.ZPowGate, tags_to_ignore=[pz]), GF(cirq.FSimGate, tags_to_accept=[via, two]), cirq.MeasurementGate),
+        cirq.Gateset(GF(cirq.SQRT_ISWAP, tags_to_accept=['t']), GF(cirq.CZ, tags_to_ignore=['t', NC_TAG]), GF(cirq.FSimGate, tags_to_accept=[via]),
+                     GF(cirq.HPowGate, tags_to_accept=[NC_TAG]), cirq.PhasedXPowGate, unroll_circuit_op=False),
+    ]
+
+
+PROTO_GATES = ['syc', 'sqrt_iswap', 'sqrt_iswap_inv', 'cz', 'cz_pow_gate', 'phased_xz', 'virtual_zpow', 'physical_zpow', 'meas', 'wait', 'fsim_via_model',
+               'two_pulse_fsim', 'reset']
+
+
+def proto_gate_lists(rng):
+    """valid_gates lists of DeviceSpecification protos: fixed ones with a tag-dependent family but not its complement, and drawn ones."""
+    return [['cz_pow_gate', 'phased_xz', 'physical_zpow', 'fsim_via_model', 'meas'],
+            ['cz_pow_gate', 'phased_xz', 'virtual_zpow', 'two_pulse_fsim', 'meas', 'wait', 'reset'],
+            ['syc', 'sqrt_iswap', 'cz', 'phased_xz', 'physical_zpow', 'fsim_via_model', 'two_pulse_fsim', 'meas'],
+            sorted(rng.sample(PROTO_GATES, rng.randint(3, 8))), sorted(rng.sample(PROTO_GATES, rng.randint(3, 8)))]
+
+
+def proto_device(mods, qubits, pairs, gate_names):
+    """GridDevice.from_proto of a DeviceSpecification with the given qubits, symmetric two-qubit targets and valid gates."""
+    cg = mods['cirq_google']
+    from cirq_google.api import v2
+    spec = v2.device_pb2.DeviceSpecification()
+    spec.valid_qubits.extend(v2.qubit_to_proto_id(q) for q in qubits)
+    targets = spec.valid_targets.add()
+    targets.name = '2_qubit_targets'
+    targets.target_ordering = v2.device_pb2.TargetSet.SYMMETRIC
+    for pair in pairs:
+        t = targets.targets.add()
+        t.ids.extend(v2.qubit_to_proto_id(q) for q in pair)
+    for name in gate_names:
+        gate = spec.valid_gates.add()
+        getattr(gate, name).SetInParent()
+        gate.gate_duration_picos = 1000
+    return cg.GridDevice.from_proto(spec)
+
+
+def device_circuits(mods, rng, kind, gateset, qubit_set, pairset, cand, seen_ops, big):
+    """Operation lists for validate_circuit.  For every family of the gateset: a gate the family takes, placed on the device, in
+    every tag variant the gateset talks about (plus none and an unrelated tag) and on other qubits; all ordered pairs of the
+    variants (the same gate acceptable in one form and not in another, in both orders), some with a third operation in front.
+    Then sequences of the operations already judged one by one (accepted and rejected mixed)."""
+    cirq = mods['cirq']
+    out = []
+    fams = sorted(gateset.gates, key=repr)
+    universe = []
+    for f in fams:
+        for t in sorted(f.tags_to_accept, key=repr) + sorted(f.tags_to_ignore, key=repr):
+            if not any(type(t) is type(u) and t == u for u in universe):
+                universe.append(t)
+    universe = universe[:4] + ['c07_unrelated']
+    on_dev = sorted(qubit_set)
+    cands = device_gate_candidates(mods, rng)
+    bases = []
+    for f in fams if big else rng.sample(fams, min(3, len(fams))):
+        for g in rng.sample(cands, len(cands)):
+            n = cirq.num_qubits(g)
+            if n > len(on_dev):
+                continue
+            qs = list(rng.choice(sorted(map(sorted, pairset)))) if n == 2 and pairset and rng.random() < 0.8 else rng.sample(on_dev, n)
+            probe = g.on(*qs)
+            try:
+                ok = probe.with_tags(*f.tags_to_accept) in f if f.tags_to_accept else probe in f
+            except Exception:
+                ok = False
+            if ok and not any(b.gate == g for b in bases):
+                bases.append(probe)
+                break
+    for base in bases:
+        g = base.gate
+        n = cirq.num_qubits(g)
+        variants = [base] + [base.with_tags(t) for t in universe]
+        if len(universe) >= 3:
+            variants.append(base.with_tags(*rng.sample(universe, 2)))
+        if len(cand) >= n:
+            variants.append(g.on(*rng.sample(cand, n)))
+        for v1, v2 in itertools.permutations(variants, 2):
+            if rng.random() < 0.15 and seen_ops:
+                out.append([rng.choice(seen_ops), v1, v2])
+            else:
+                out.append([v1, v2])
+    for _ in range(24 if big else 12):
+        if seen_ops:
+            seq = [rng.choice(seen_ops) for _ in range(rng.randint(2, 5))]
+            if rng.random() < 0.5:
+                # an operation already in the sequence once more with other tags / on other qubits
+                o = rng.choice(seq)
+                if o.gate is not None:
+                    n = cirq.num_qubits(o.gate)
+                    o2 = o.untagged.with_tags(rng.choice(universe)) if rng.random() < 0.6 or len(cand) < n else o.gate.on(*rng.sample(cand, n))
+                    seq.insert(rng.randrange(len(seq) + 1), o2)
+            out.append(seq)
+    return out
 
 
 def spec_accepts(cirq, kind, op, gateset, qubit_set, pairs, variadic, cgs=None):
@@ -1007,18 +1220,29 @@ def device_stream(ctx, mods, n_specs, ops_per_spec):
     pool = [cirq.CZ, cirq.CZPowGate, cirq.XPowGate, cirq.ZPowGate, cirq.PhasedXZGate, cirq.MeasurementGate, cirq.SQRT_ISWAP, GF(cirq.ZPowGate, tags_to_accept=[cg.PhysicalZTag()]),
             cirq.ISWAP, cirq.WaitGate, cirq.IdentityGate, cirq.AnyIntegerPowerGateFamily(cirq.CZPowGate), cirq.SWAP, cirq.CCZPowGate, cirq.PhasedXPowGate, cirq.CNOT, cirq.MatrixGate]
     shards = []
-    for si in range(n_specs):
-        kind = ['grid', 'grid', 'grid', 'aqt', 'pasqal', 'pasqal_virtual', 'ionq'][si % 7]
+    fixed = fixed_grid_gatesets(mods)
+    protos = proto_gate_lists(rng)
+    specs = [(['grid', 'grid', 'grid', 'aqt', 'pasqal', 'pasqal_virtual', 'ionq'][si % 7], None) for si in range(n_specs)]
+    specs += [('grid', ('gateset', g)) for g in fixed] + [('grid', ('proto', names)) for names in protos]
+    for kind, variant in specs:
         qt = QubitTable()
         cgs = None
+        model = True
         if kind == 'grid':
             allq = [cirq.GridQubit(r, c) for r in range(2) for c in range(3)]
             dq = sorted(rng.sample(allq, rng.randint(3, 6)))
             adj = [(a, b) for a in dq for b in dq if a < b and a.is_adjacent(b)]
             pairs = [p for p in adj if rng.random() < 0.7]
-            gateset = cirq.Gateset(*rng.sample(pool, rng.randint(3, 9)), unroll_circuit_op=rng.random() < 0.7)
+            if variant is not None and not pairs and adj:
+                pairs = [rng.choice(adj)]
             try:
-                device = cg.GridDevice(cirq.GridDeviceMetadata(qubit_pairs=pairs, gateset=gateset, all_qubits=dq))
+                if variant is None:
+                    gateset = cirq.Gateset(*rng.sample(pool, rng.randint(3, 9)), unroll_circuit_op=rng.random() < 0.7)
+                    device = cg.GridDevice(cirq.GridDeviceMetadata(qubit_pairs=pairs, gateset=gateset, all_qubits=dq))
+                elif variant[0] == 'gateset':
+                    device = cg.GridDevice(cirq.GridDeviceMetadata(qubit_pairs=pairs, gateset=variant[1], all_qubits=dq))
+                else:
+                    device = proto_device(mods, dq, pairs, variant[1])
             except Exception as e:
                 ctx.mark_broken('harness:grid-device', f'{type(e).__name__}: {e}')
                 continue
@@ -1058,12 +1282,22 @@ def device_stream(ctx, mods, n_specs, ops_per_spec):
             gterm = d.gateset(gs_obj)
             rterm = f'(PairsIn {d.gateset(cgs)})' if rule == 'PairsIn' else rule
         except Unmodelled as e:
-            ctx.mark_broken('model:gateset-family', f'device {kind}: {e}')
-            continue
+            if variant is not None and variant[0] == 'proto':
+                # a device specification naming gates whose families (FSimGateFamily) the membership model does not describe: the
+                # statement is still decided on the real objects below, only the recomputation inside Coq is left out
+                model, gterm, rterm = False, 'None', rule
+                ctx.cov['device_specs_judged_without_model'] = ctx.cov.get('device_specs_judged_without_model', 0) + 1
+            else:
+                ctx.mark_broken('model:gateset-family', f'device {kind}: {e}')
+                continue
         dterm = (f'(mkDev {gterm} {gates.nlist([qt(q) for q in qubit_set and sorted(qubit_set)])} '
                  f'[{"; ".join(f"({qt(a)}, {qt(b)})%nat" for a, b in (tuple(sorted(p)) for p in sorted(pairset, key=lambda p: sorted(p))))}] {rterm} {"true" if gate_only else "false"})')
         rows, meta = [], []
-        acc_ops = []
+        acc_ops, seen_ops = [], []
+        dev_rec = dict(kind='device', device=kind, qubits=repr(sorted(qubit_set)), pairs=repr(sorted(map(sorted, pairset))), gateset=repr(gs_obj),
+                       unroll=bool(gs_obj._unroll_circuit_op), proto_gates=list(variant[1]) if variant is not None and variant[0] == 'proto' else None)
+        dop_of = lambda op: (f'(mkDop {(f"(OGate {d.gate(op.gate)} [])" if kind == "aqt" and op.gate is not None else d.op(op))} '
+                             f'{gates.nlist([qt(q) for q in op.qubits])} {"true" if isinstance(op, cirq.GateOperation) else "false"})')
         for _ in range(ops_per_spec):
             op = device_op_pool(mods, rng, cand)
             if kind in ('pasqal', 'pasqal_virtual') and isinstance(op.gate, cirq.MeasurementGate) and op.gate.invert_mask != ():
@@ -1082,15 +1316,46 @@ def device_stream(ctx, mods, n_specs, ops_per_spec):
                 clause = why.replace(' ', '-')
                 ctx.violation(f'device:{kind}:{"accepts" if got is True else "rejects"}:{clause}',
                               f'{kind} device validate_operation({repr(op)[:160]}) {"accepts" if got is True else "rejects (" + str(got) + ")"} although the operation is: {why}',
-                              dict(kind='device', device=kind, qubits=repr(sorted(qubit_set)), pairs=repr(sorted(map(sorted, pairset))), gateset=repr(gs_obj),
-                                   unroll=bool(gs_obj._unroll_circuit_op), radius=radius if kind == 'pasqal_virtual' else None, op=repr(op)))
-            opd = f'(OGate {d.gate(op.gate)} [])' if kind == 'aqt' and op.gate is not None else d.op(op)
-            dop = f'(mkDop {opd} {gates.nlist([qt(q) for q in op.qubits])} {"true" if isinstance(op, cirq.GateOperation) else "false"})'
+                              dict(dev_rec, radius=radius if kind == 'pasqal_virtual' else None, op=repr(op)))
+            seen_ops.append(op)
+            if not model:
+                continue
+            dop = dop_of(op)
             # the model follows the property's statement; for the IonQ device the recorded finding is the only allowed difference
             rows.append(f'Bool.eqb (device_accepts DEV {dop}) {"true" if want else "false"}')
             meta.append((kind, op, f'device answers {got}, statement says {why}'))
             if got is True:
                 acc_ops.append((op, dop))
+        if kind in ('grid', 'ionq'):
+            # whole circuits: accepted exactly when every operation on its own is (whatever came before it in the circuit)
+            for ops_c in device_circuits(mods, rng, kind, gs_obj, qubit_set, pairset, cand, seen_ops, big=variant is not None):
+                wants = [spec_accepts(cirq, kind, o, gs_obj, qubit_set, pairset, (cirq.MeasurementGate, cirq.WaitGate), cgs) for o in ops_c]
+                want = all(w for w, _ in wants)
+                circ = cirq.Circuit()
+                for o in ops_c:
+                    circ.append(o, strategy=cirq.InsertStrategy.NEW if rng.random() < 0.5 else cirq.InsertStrategy.EARLIEST)
+                ordered = list(circ.all_operations())
+                try:
+                    device.validate_circuit(circ)
+                    got = True
+                except ValueError:
+                    got = False
+                except Exception as e:
+                    got = type(e).__name__
+                ctx.count(f'device:{kind}:circuit', [kind, repr(sorted(qubit_set)), repr(sorted(map(sorted, pairset))), repr(gs_obj)[:400], repr(ordered)[:600]], len(ordered) >= 2,
+                          sample=dict(device=kind, ops=[repr(o)[:80] for o in ordered], accepted=got, spec=want) if rng.random() < 0.005 else None)
+                if got is not want:
+                    culprit = next((f'{o!r} is: {why}' for o, (w, why) in zip(ops_c, wants) if not w), 'every operation is acceptable on its own')
+                    clause = next((why for w, why in wants if not w), 'all-acceptable').replace(' ', '-')
+                    ctx.violation(f'device:{kind}:circuit:{"accepts" if got is True else "rejects"}:{clause}',
+                                  (f'{kind} device validate_circuit {"accepts" if got is True else "rejects (" + str(got) + ")"} the circuit {[repr(o)[:120] for o in ordered]} '
+                                   f'although {culprit}')[:600],
+                                  dict(dev_rec, ops=[repr(o) for o in ordered], moments=repr(circ)))
+                if model and len(rows) < 240:
+                    rows.append(f'Bool.eqb (device_accepts_circuit DEV [{"; ".join(dop_of(o) for o in ordered)}]) {"true" if want else "false"}')
+                    meta.append((kind, ordered, f'validate_circuit -> {got}, statement says {want}'))
+        if not model:
+            continue
         if kind == 'grid' and acc_ops:
             # validate_circuit: all accepted operations together / with one rejected operation added
             ops_ok = [o for o, _ in acc_ops[:4]]
@@ -1163,7 +1428,7 @@ def evaluate(ctx, mods, checks, confirm):
     """checks: (stream, expr, desc, rep). Shards by size; a failing expression is confirmed on the real code by `confirm`."""
     shards, cur, size = [], [], 0
     for c in checks:
-        if cur and (size + len(c[1]) > 600_000 or len(cur) >= 60):
+        if cur and (size + len(c[1]) > 600_000 or len(cur) >= 200):
             shards.append(cur)
             cur, size = [], 0
         cur.append(c)
@@ -1205,18 +1470,27 @@ def run(ctx):
     ctx.rule = ('compile: 18 target configurations x input kind (random 1-3 qubit MatrixGates, library gates of the shared vocabulary, already-native '
                 'operations, no-compile tagged native operations with tags_to_ignore, CircuitOperations incl. repetitions / qubit maps / deep), 1-3 qubits, '
                 '2-7 operations, max_num_passes 1 or None; non-trivial = at least 2 input operations; distinct by (target, circuit JSON). '
+                'compile lone: one library gate alone on its qubits (nothing to merge with, so the bare gate reaches the target\'s own dispatch): every 1/2/3-qubit power-gate '
+                'family at exponents +-1, +-0.5 (zero shift), PhasedISwap, FSim at the iSWAP/sqrt-iSWAP/CZ/Sycamore angles, givens, ms, SYC, CSWAP for every target on every run; '
+                'the remaining special exponents, shifted forms, PhasedFSim, Pauli interactions, controlled gates, permutations for drawn targets; placed forward, reversed, '
+                'beside a spectator qubit or next to a no-compile tagged native operation. '
                 'membership: ~400 gates/operations (subclass instances, exponents modulo the period, tags, CircuitOperations, gate-less operations) x '
                 '25 gatesets and one random family each; both answers occur. route: line/ring/grid/tree/tree+chords graphs with 2-9 nodes, 35% directed, '
                 'hard-coded bijective placements, LineInitialMapper and the default mapper, lookahead 1/2/8, 2-12 one- and two-qubit operations, tags, '
                 'CircuitOperations, terminal measurements in 25%; non-trivial = at least one inserted swap; the A.6 relation for measurement-free cases on <= 5 nodes. '
                 'mapping_manager: random connected placements and swap sequences. device: generated GridDevice specs (qubits, pairs, gatesets with tagged and '
-                'integer-power families), AQT, Pasqal (plain and virtual with a control radius), IonQ API devices x 40 operations each on and off the device.')
+                'integer-power families), AQT, Pasqal (plain and virtual with a control radius), IonQ API devices x 40 operations each on and off the device; on every run also '
+                'four fixed gatesets with tag-dependent families (with and without the complementary family) and five DeviceSpecification protos through GridDevice.from_proto '
+                '(FSimGateFamily specs are judged on the real objects only). validate_circuit (GridDevice, IonQ): for every family of the gateset a gate it takes, in every tag '
+                'variant the gateset mentions / untagged / unrelated tag / other qubits, all ordered pairs of variants, plus sequences of the singly judged operations; '
+                'accepted iff every operation is acceptable on its own.')
     ctx.assumptions += ['float tolerance 2^-20 (~1e-6) for unitaries up to global phase', 'operations enter the model through their own cirq.unitary (C03/C04 tie those to the documented matrices)']
     ctx.set_obligations(coq.compile_props('C07'))
     n = 1 if ctx.tier == 'quick' else 10
     checks = []
     membership_stream(ctx, mods, n)
     compile_stream(ctx, mods, checks, 8 * n)
+    lone_gate_stream(ctx, mods, checks, full=ctx.tier != 'quick')
     routing_stream(ctx, mods, checks, 90 * n)
     mapping_manager_stream(ctx, mods, 60 * n)
     device_stream(ctx, mods, 28 * n, 40)
@@ -1240,11 +1514,15 @@ def replay_device(mods, data):
     kind = data['device']
     qubits = py_eval(mods, data['qubits'])
     pairs = {frozenset(p) for p in py_eval(mods, data['pairs'])}
-    op = py_eval(mods, data['op'])
+    ops = [py_eval(mods, t) for t in data['ops']] if 'ops' in data else None
+    op = py_eval(mods, data['op']) if ops is None else None
     cgs = None
     if kind == 'grid':
-        gateset = py_eval(mods, data['gateset'])
-        device = cg.GridDevice(cirq.GridDeviceMetadata(qubit_pairs=[tuple(sorted(p)) for p in pairs], gateset=gateset, all_qubits=qubits))
+        if data.get('proto_gates'):
+            device = proto_device(mods, qubits, [tuple(sorted(p)) for p in pairs], data['proto_gates'])
+        else:
+            gateset = py_eval(mods, data['gateset'])
+            device = cg.GridDevice(cirq.GridDeviceMetadata(qubit_pairs=[tuple(sorted(p)) for p in pairs], gateset=gateset, all_qubits=qubits))
         gs_obj = device.metadata.gateset
     elif kind == 'aqt':
         device = ca.aqt_device.AQTDevice(cirq.Duration(micros=1), cirq.Duration(micros=1), cirq.Duration(micros=1), qubits)
@@ -1258,6 +1536,16 @@ def replay_device(mods, data):
     else:
         device = ci.IonQAPIDevice(len(qubits))
         gs_obj = device.gateset
+    if ops is not None:
+        circ = py_eval(mods, data['moments'])
+        try:
+            device.validate_circuit(circ)
+            got = True
+        except ValueError:
+            got = False
+        wants = [spec_accepts(cirq, kind, o, gs_obj, set(qubits), pairs, (cirq.MeasurementGate, cirq.WaitGate), cgs) for o in circ.all_operations()]
+        print(f'replay: device answers {got} for the circuit; the statement says {[why for _, why in wants]}')
+        return got is all(w for w, _ in wants)
     try:
         device.validate_operation(op)
         got = True
